@@ -384,7 +384,7 @@ namespace sched
     /// threads of the process are best kept on ONE cpu (a futex hand-off is then a local context switch,
     /// measured 4-5x faster than a cross-core wake-up). Picks an allowed cpu that no other process using
     /// this function has taken (advisory lock file per cpu, held until the process exits) and pins the
-    /// calling thread (threads created later inherit the mask). Returns the cpu or -1 (left unpinned).
+    /// calling thread (threads created later inherit the mask); if all cpus are taken it shares one. Returns the cpu or -1.
     inline int pin_to_free_cpu()
     {
         cpu_set_t allowed;
@@ -414,6 +414,19 @@ namespace sched
             if (sched_setaffinity(0, sizeof one, &one) == 0)
                 return cpu; // fd stays open: the lock lives as long as the process
             close(fd);
+        }
+        // every cpu is taken (machine oversubscribed): still keep our threads together on one cpu, a hand-off between
+        // two threads on the same run queue does not have to wait for a time slice on another busy cpu
+        for (int k = 0; k < ncpu; ++k)
+        {
+            int cpu = (first + k) % ncpu;
+            if (!CPU_ISSET(cpu, &allowed))
+                continue;
+            cpu_set_t one;
+            CPU_ZERO(&one);
+            CPU_SET(cpu, &one);
+            if (sched_setaffinity(0, sizeof one, &one) == 0)
+                return cpu;
         }
         return -1;
     }
